@@ -774,6 +774,8 @@ impl Breakpoint {
             sys::ptrace::write(self.pid, addr, data_with_pb as *mut c_void)
                 .map_err(Error::Ptrace)?;
         }
+        #[cfg(feature = "verif")]
+        crate::debugger::verif::rec_patch(self.addr.as_usize(), true);
         self.enabled.set(true);
 
         Ok(())
@@ -786,6 +788,8 @@ impl Breakpoint {
         unsafe {
             sys::ptrace::write(self.pid, addr, restored as *mut c_void).map_err(Error::Ptrace)?;
         }
+        #[cfg(feature = "verif")]
+        crate::debugger::verif::rec_patch(self.addr.as_usize(), false);
         self.enabled.set(false);
 
         Ok(())
